@@ -229,6 +229,9 @@ class Gen:
 		out = []
 		for _ in range(self.wide(0.03) or self.rng.choice([0, 0, 0, 1, 2])):
 			out.append(ind + self.rng.choice(['@deco', '@a.b', f'@deco({self.args(1)})', '@classmethod', '@deco()']))
+		if self.rng.random() < 0.15:
+			# embed decorators: a definition published under another name (its `symbol` node is an alias proxy), an alias embed
+			out.insert(self.rng.randint(0, len(out)), ind + self.rng.choice([f"@__actual__('{self.name()}')", "@__actual__('Renamed')", f"@Embed.alias('{self.name()}')", "@__actual__('a_much_longer_published_name')"]))
 		return out
 
 	def function(self, ind: str, depth: int, method: bool = False) -> list[str]:
